@@ -37,6 +37,7 @@ def check(repo: Repo, R) -> None:
     none_skipped(repo, R)
     prefix_total(repo, R)
     no_float_detour(repo, R)
+    no_value_memo(repo, R, "C13.7-no-memoisation-by-value")
     ideal_primitives(repo, R, "C13.5-ideal-primitives-agree-with-reader")
     to_scalar_shape(repo, R)
     R.floor("C13.1-value-dispatch", 8)
@@ -150,6 +151,25 @@ def no_float_detour(repo: Repo, R):
                     bad.append(ast.unparse(c))
         R.check(not bad, rule, key_of(fi), fi.site, f"{q}: no float() and no Decimal(<non-string>) on the value path" if not bad else f"{q}: float detour `{bad[0]}`",
                 why="a decimal value passes through binary floating point and reaches the package with other digits (0.1 -> 0.1000000000000000055...)")
+
+
+CACHING_DECORATORS = ("lru_cache", "cache", "cached_property", "memoize", "memoized")
+
+
+def no_value_memo(repo: Repo, R, rule: str):
+    """Functions on the export path are not memoised: Prefixed (and Scalar) values compare and hash by *value*,
+    so a cache keyed by the argument returns the digits and prefix of an earlier, equal-valued but differently
+    written number."""
+    n = 0
+    for rel in (F_EXPORT, F_SCALAR, F_PREFIX):
+        for fi in repo.funcs_in(rel):
+            decos = [(dotted(d.func) if isinstance(d, ast.Call) else dotted(d)) or "" for d in fi.node.decorator_list]
+            bad = [d for d in decos if d.split(".")[-1] in CACHING_DECORATORS]
+            n += 1
+            if bad:
+                R.bad(rule, key_of(fi, "memoised"), fi.site, f"{fi.qual} is memoised with @{bad[0]}: arguments that are equal by value (1000*m and 1*UNIT) share one cached result",
+                      "a parameter is exported with the digits and prefix of an earlier, equal-valued parameter; results depend on what was exported before")
+    R.ok(rule, f"{F_EXPORT}::no-memoisation", F_EXPORT, f"{n} functions of the export / scalar-conversion path inspected: none is memoised by argument value")
 
 
 def ideal_primitives(repo: Repo, R, rule: str):
